@@ -49,7 +49,9 @@ class IrGenerator:
             )
 
             # concurrent block for always assignments
-            concurrent = ir.Concurrent("always", always_converter.code(), {}, None)
+            concurrent = ir.Concurrent(
+                "always", always_converter.code(), {}, inp.source_location()
+            )
 
             temp_replacement = IdMap()
 
